@@ -16,6 +16,7 @@ import (
 	"fmt"
 	"os"
 	"os/exec"
+	"runtime"
 	"sort"
 	"strings"
 	"sync"
@@ -700,26 +701,63 @@ func genSeq(r *kit.Rand, id int) Case {
 		}
 		return "sortquick"
 	}
+	// approximate membership, only to bias deletes towards present values
+	var approx [nSets][]int
+	pickPresent := func(t int) int {
+		if len(approx[t]) > 0 && r.Chance(2, 3) {
+			return approx[t][r.Intn(len(approx[t]))]
+		}
+		return genVal(r, neg)
+	}
+	note := func(t, v int) {
+		if !contains(approx[t], v) {
+			approx[t] = append(approx[t], v)
+		}
+	}
+	forget := func(t, v int) {
+		for i, x := range approx[t] {
+			if x == v {
+				approx[t] = append(append([]int{}, approx[t][:i]...), approx[t][i+1:]...)
+				return
+			}
+		}
+	}
 	for i := 0; i < n; i++ {
 		t := pickT()
 		x := r.Intn(100)
 		switch {
 		case x < 18:
-			c.Ops = append(c.Ops, Op{Op: "add", T: t, V: genVal(r, neg)})
+			v := genVal(r, neg)
+			note(t, v)
+			c.Ops = append(c.Ops, Op{Op: "add", T: t, V: v})
 		case x < 30:
-			c.Ops = append(c.Ops, Op{Op: "addcheck", T: t, V: genVal(r, neg)})
+			v := genVal(r, neg)
+			note(t, v)
+			c.Ops = append(c.Ops, Op{Op: "addcheck", T: t, V: v})
 		case x < 38:
-			c.Ops = append(c.Ops, Op{Op: "delete", T: t, V: genVal(r, neg)})
+			v := pickPresent(t)
+			forget(t, v)
+			c.Ops = append(c.Ops, Op{Op: "delete", T: t, V: v})
 		case x < 49:
-			c.Ops = append(c.Ops, Op{Op: "deletecheck", T: t, V: genVal(r, neg)})
+			v := pickPresent(t)
+			forget(t, v)
+			c.Ops = append(c.Ops, Op{Op: "deletecheck", T: t, V: v})
 		case x < 55:
 			c.Ops = append(c.Ops, Op{Op: "check", T: t, V: genVal(r, neg)})
 		case x < 57:
 			c.Ops = append(c.Ops, Op{Op: "len", T: t})
 		case x < 62:
-			c.Ops = append(c.Ops, Op{Op: "populate", T: t, Vs: genVals(r, neg, 5)})
+			vs := genVals(r, neg, 5)
+			for _, v := range vs {
+				note(t, v)
+			}
+			c.Ops = append(c.Ops, Op{Op: "populate", T: t, Vs: vs})
 		case x < 68:
-			c.Ops = append(c.Ops, Op{Op: "extend", T: t, U: other(t)})
+			u := other(t)
+			for _, v := range approx[u] {
+				note(t, v)
+			}
+			c.Ops = append(c.Ops, Op{Op: "extend", T: t, U: u})
 		case x < 70:
 			c.Ops = append(c.Ops, Op{Op: "order", T: t})
 		case x < 71:
@@ -735,6 +773,9 @@ func genSeq(r *kit.Rand, id int) Case {
 			if r.Chance(1, 8) {
 				u = t // a set's own encoding read back into itself
 			}
+			for _, v := range approx[u] {
+				note(t, v)
+			}
 			c.Ops = append(c.Ops, Op{Op: "json", T: t, U: u})
 		case x < 97:
 			items := []*int{}
@@ -748,6 +789,7 @@ func genSeq(r *kit.Rand, id int) Case {
 			}
 			c.Ops = append(c.Ops, Op{Op: "unmarshal", T: t, Items: items})
 		default:
+			approx[t] = nil
 			c.Ops = append(c.Ops, Op{Op: "reset", T: t, Ordered: r.Bool(), Sync: r.Chance(1, 3)})
 		}
 	}
@@ -907,12 +949,15 @@ func runConc(c Case) []hEvent {
 	var mu sync.Mutex
 	var hist []hEvent
 	var wg sync.WaitGroup
-	start := make(chan struct{})
+	var ready atomic.Int64
+	k := int64(len(c.Threads))
 	for tid, ops := range c.Threads {
 		wg.Add(1)
 		go func(tid int, ops []Op) {
 			defer wg.Done()
-			<-start
+			ready.Add(1)
+			for ready.Load() < k { // spin barrier: all threads issue their first call together
+			}
 			local := make([]hEvent, 0, len(ops))
 			for _, o := range ops {
 				e := hEvent{Tid: tid, Op: o.Op, V: o.V}
@@ -935,7 +980,6 @@ func runConc(c Case) []hEvent {
 			mu.Unlock()
 		}(tid, ops)
 	}
-	close(start)
 	wg.Wait()
 	// final state, observed by the driver after every thread returned
 	e := hEvent{Tid: -1, Op: "len"}
@@ -1095,6 +1139,20 @@ func raceChild(ordered bool) {
 	for i := 0; i < 8; i++ {
 		s.Add(i)
 	}
+	// deterministic part: take one item from the producer, give whatever runs behind it time to
+	// go on reading the set, then write to the set from this goroutine
+	ctx := context.Background()
+	p := s.Producer()
+	_, _ = p(ctx)
+	time.Sleep(50 * time.Millisecond)
+	s.Add(1000)
+	s.Delete(3)
+	for {
+		if _, err := p(ctx); err != nil {
+			break
+		}
+	}
+	// stress part
 	var wg sync.WaitGroup
 	for g := 0; g < 2; g++ {
 		wg.Add(1)
@@ -1159,6 +1217,14 @@ func runRaceChild(ordered bool) (raced bool, report string) {
 
 // ---------------------------------------------------------------- main
 
+func firstLines(s string, n int) string {
+	l := strings.Split(s, "\n")
+	if len(l) > n {
+		l = l[:n]
+	}
+	return strings.Join(l, " | ")
+}
+
 func bucket(n int) string {
 	switch {
 	case n <= 3:
@@ -1187,11 +1253,41 @@ func withWatchdog(run *kit.Run, c Case, f func()) bool {
 	}
 }
 
+// abandonedIterators waits for the goroutine count to return to what it was before the case; if it
+// does not, it reports the goroutines of dt's map key/value iterators that are still alive.
+func abandonedIterators(base int) string {
+	deadline := time.Now().Add(3 * time.Second)
+	for runtime.NumGoroutine() > base {
+		if time.Now().After(deadline) {
+			buf := make([]byte, 1<<20)
+			buf = buf[:runtime.Stack(buf, true)]
+			for _, g := range strings.Split(string(buf), "\n\n") {
+				if strings.Contains(g, "fun/dt.Map") {
+					return g
+				}
+			}
+			return ""
+		}
+		time.Sleep(200 * time.Microsecond)
+	}
+	return ""
+}
+
 func execSeq(run *kit.Run, c Case, verbose bool) {
 	var r seqResult
+	base := runtime.NumGoroutine()
 	if !withWatchdog(run, c, func() { r = runSeq(c) }) {
 		run.Count("seq/hang")
 		return
+	}
+	if g := abandonedIterators(base); g != "" {
+		// every iterator the driver obtains is drained, so a surviving map-iterator goroutine was
+		// abandoned by a Set method; it keeps reading the set's map
+		if r.sig == "" {
+			r.sig = "C18:Set.Equal:abandoned-iterator"
+			r.first = "a Set method returned while the goroutine that ranges over the set's map was still alive (it races with the next mutation of the set): " + firstLines(g, 12)
+		}
+		run.Count("seq/abandoned-iterator")
 	}
 	if verbose {
 		for i, o := range c.Ops {
@@ -1276,8 +1372,8 @@ func execConc(run *kit.Run, c Case, verbose bool) {
 	} else {
 		term = coqLinCase(c, hist, order)
 	}
-	key, _ := json.Marshal(c)
-	run.Case(c.ID, c, term, "c|"+string(key[20:]), len(hist) > 4)
+	key, _ := json.Marshal([]any{c.Ordered, c.WithLock, c.Pre, c.Threads})
+	run.Case(c.ID, c, term, "c|"+string(key), len(hist) > 4)
 }
 
 func main() {
@@ -1288,10 +1384,22 @@ func main() {
 			return
 		}
 	}
+	run := kit.Start()
+	// dt.List.SortMerge (dt/cmp.go, properties C16/C17) used to leave the elements owned by a
+	// temporary list, after which Element.Remove corrupts the receiver's length and the next sort of
+	// the Set's list does not terminate. SortMerge is exercised on Sets only once that is repaired.
+	{
+		l := &dt.List[int]{}
+		l.PushBack(2)
+		l.PushBack(1)
+		l.PushBack(3)
+		l.SortMerge(func(a, b int) bool { return a < b })
+		sortMergeEnabled = l.Front().In(l) && l.Len() == 3
+	}
 	if os.Getenv("C18_NO_SORTMERGE") != "" {
 		sortMergeEnabled = false
 	}
-	run := kit.Start()
+	run.Extra["sortmerge_exercised"] = sortMergeEnabled
 	run.Header = "From FunV Require Import Base.Tac Model.SetModel Corr.C18_corr."
 	run.Footer = "Definition M := Eval vm_compute in mismatches cases.\nPrint M."
 	run.CaseType = "case"
@@ -1325,6 +1433,8 @@ func main() {
 		{Kind: "seq", Ops: []Op{{Op: "order", T: 0}, {Op: "order", T: 1}, {Op: "populate", T: 0, Vs: []int{1, 2, 3}}, {Op: "populate", T: 1, Vs: []int{3, 2, 1}}, {Op: "equal", T: 0, U: 1}, {Op: "sortquick", T: 1, Lt: 0}, {Op: "equal", T: 0, U: 1}, {Op: "equal", T: 1, U: 0}}},
 		// Order() on a populated unordered set panics and changes nothing
 		{Kind: "seq", Ops: []Op{{Op: "add", T: 0, V: 1}, {Op: "order", T: 0}, {Op: "add", T: 0, V: 0}, {Op: "iter", T: 0}}},
+		// Equal of two unordered sets that differs at the first key examined must not leave the key iterator behind
+		{Kind: "seq", Ops: []Op{{Op: "populate", T: 0, Vs: []int{1, 2}}, {Op: "populate", T: 1, Vs: []int{3, 4}}, {Op: "equal", T: 0, U: 1}, {Op: "add", T: 0, V: 0}, {Op: "equal", T: 1, U: 0}}},
 		// empty sets
 		{Kind: "seq", Ops: []Op{{Op: "len", T: 0}, {Op: "iter", T: 0}, {Op: "deletecheck", T: 0, V: 0}, {Op: "equal", T: 0, U: 1}, {Op: "json", T: 1, U: 0}, {Op: "sortquick", T: 2, Lt: 0}, {Op: "equal", T: 2, U: 0}}},
 		// JSON: ordered round trip keeps the order; malformed element panics after the prefix
